@@ -176,6 +176,20 @@ func (c *runCounter) AfterExtractorRun(name string, d time.Duration, err error) 
 	c.mu.Unlock()
 }
 
+// cancelOnOpenFS cancels the scan context when one of the placed files is opened.
+type cancelOnOpenFS struct {
+	scalibrfs.FS
+	targets map[string]bool
+	cancel  func()
+}
+
+func (f *cancelOnOpenFS) Open(name string) (fs.File, error) {
+	if f.targets[name] {
+		f.cancel()
+	}
+	return f.FS.Open(name)
+}
+
 func osCap(s string) plugin.OS {
 	switch s {
 	case "mac":
@@ -423,6 +437,18 @@ func runSECase(e *Env, c *seCase, m *emitter) (map[string]any, error) {
 	var res *scalibr.ScanResult
 	done := make(chan string, 1)
 	ctx, cancel := context.WithCancel(context.Background())
+	// Cancellation dimension (single-extractor scans of virtual roots, every other scenario): the scan context is
+	// cancelled at the moment the engine opens the placed file for the extractor, i.e. after the engine's own
+	// context check and before Extract. The extractor then runs (or bails out) under a done context; whatever it
+	// does, the zones must be left as they were.
+	cancelAtOpen := c.Mode == "single" && c.Root != "real" && (c.Fmt+len(c.Variant)+len(c.CVariant))%2 == 0
+	if cancelAtOpen {
+		targets := map[string]bool{}
+		for _, f := range files {
+			targets[f.Path] = true
+		}
+		roots[0].FS = &cancelOnOpenFS{FS: roots[0].FS, targets: targets, cancel: cancel}
+	}
 	go func() {
 		done <- Safely(func() { res = scalibr.New().Scan(ctx, cfg) })
 	}()
@@ -448,7 +474,7 @@ func runSECase(e *Env, c *seCase, m *emitter) (map[string]any, error) {
 		}
 		obs[z] = diffSnap(before[z], after)
 	}
-	out := map[string]any{"i": c.I, "obs": obs, "runs": ctr.runs, "files": len(files), "enabled": len(enabled)}
+	out := map[string]any{"i": c.I, "obs": obs, "runs": ctr.runs, "files": len(files), "enabled": len(enabled), "cancel_at_open": cancelAtOpen}
 	if panicked != "" {
 		out["panic"] = panicked
 	}
